@@ -177,11 +177,28 @@ func discMeshes() map[string]*model3d.Mesh {
 	fan := model3d.NewMesh()
 	c := p(0.1, 0.05, 0.6)
 	const nf = 7
+	rim := func(i int) model3d.Coord3D {
+		i %= nf // the last triangle closes the fan on the first rim vertex exactly, so that c is interior
+		a := 2 * math.Pi * float64(i) / nf
+		return p(math.Cos(a)*(1+0.1*float64(i%3)), math.Sin(a), 0.05*float64(i))
+	}
 	for i := 0; i < nf; i++ {
-		a0, a1 := 2*math.Pi*float64(i)/nf, 2*math.Pi*float64(i+1)/nf
-		fan.Add(&model3d.Triangle{c, p(math.Cos(a0)*(1+0.1*float64(i%3)), math.Sin(a0), 0.05*float64(i)), p(math.Cos(a1)*(1+0.1*float64((i+1)%nf%3)), math.Sin(a1), 0.05*float64((i+1)%nf))})
+		fan.Add(&model3d.Triangle{c, rim(i), rim(i + 1)})
 	}
 	out["fan7"] = fan
+	// a strip with one vertex inserted in every triangle: interior vertices that are pairwise non-adjacent
+	stel := model3d.NewMesh()
+	for i := 0; i < 3; i++ {
+		a, b := p(float64(i), 0, 0.1*float64(i*i)), p(float64(i)+0.4, 1, 0.2*float64(i))
+		a2, b2 := p(float64(i+1), 0, 0.1*float64((i+1)*(i+1))), p(float64(i+1)+0.4, 1, 0.2*float64(i+1))
+		for _, t := range [][3]model3d.Coord3D{{a, a2, b2}, {a, b2, b}} {
+			m := t[0].Scale(0.5).Add(t[1].Scale(0.3)).Add(t[2].Scale(0.2)).Add(p(0, 0, 0.15))
+			stel.Add(&model3d.Triangle{t[0], t[1], m})
+			stel.Add(&model3d.Triangle{t[1], t[2], m})
+			stel.Add(&model3d.Triangle{t[2], t[0], m})
+		}
+	}
+	out["stellated-strip3"] = stel
 	grid := model3d.NewMesh()
 	h := func(i, j int) model3d.Coord3D {
 		return p(float64(i)+0.07*float64(j), float64(j)-0.05*float64(i), 0.3*math.Sin(float64(i)*1.3)+0.2*float64(j*j)/4)
